@@ -1,6 +1,7 @@
 package props
 
 import (
+	"context"
 	"database/sql"
 	"encoding/json"
 	"fmt"
@@ -33,6 +34,8 @@ func c12Datasets() [][]model.Row {
 		{{"a": "new", "b": "y"}, {"a": "new york", "b": "x"}, {"a": "new+", "b": "x"}, {"a": "new", "b": "x,1"}, {"a": "new-", "b": "y"}, {"a": "x", "b": "y"}},
 		// values with blanks such that different argument lists print alike when joined by blanks: ("x y","z") / ("x","y z")
 		{{"a": "z", "b": "x y"}, {"a": "y z", "b": "x"}, {"a": "x", "b": "z"}, {"a": "x y", "b": "y z"}, {"a": "z", "b": "x"}},
+		// decimal texts of unsigned numbers at and above 2^63 and of what they become when squeezed into an int64
+		{{"a": "9223372036854775813", "b": "y"}, {"a": "-9223372036854775803", "b": "q"}, {"a": "18446744073709551615"}, {"a": "-1", "b": "y"}, {"a": "9223372036854775808"}, {"a": "-9223372036854775808"}, {"a": "9223372036854775807"}},
 	}
 	// a sample of the small-scope product: every dataset of exactly 2 rows over the 9 shapes of C01's space A
 	for _, d := range spaceADatasets(2) {
@@ -308,6 +311,47 @@ func c12Lexical(w *c12World, rows []model.Row, opt int, cov *rt.Coverage) (strin
 			return fmt.Sprintf("arguments %#v: the prepared statement returns %s, the direct query returns %s", args, prepared, direct), c
 		}
 	}
+	// unsigned arguments at and above 2^63 (database/sql refuses them): an error, or the rows of the decimal text - never
+	// the rows of some other value (a wrapped-around negative number)
+	for _, u := range []uint64{1<<63 - 1, 1 << 63, 1<<63 + 5, 1<<64 - 1} {
+		lit := c12One(w.db, fmt.Sprintf(`a = "%d" | b = "nosuchvalue" ; a`, u))
+		for _, arg := range []any{u} { // (plain uint is converted by database/sql itself, without a range check)
+			direct := c12One(w.db, `a = $1 | b = $2 ; a`, arg, "nosuchvalue")
+			prepared := "error"
+			if r, err := st.Query(arg, "nosuchvalue"); err == nil {
+				prepared = c12Render(r)
+			}
+			cov.Add("evaluations", 1)
+			for _, got := range []string{direct, prepared} {
+				if got != "error" && got != lit {
+					c := c12Multi{Kind: "lexical", Rows: rows, Opt: opt, Texts: []string{`a = $1 | b = $2 ; a`}}
+					return fmt.Sprintf("argument %T(%d): returned %s; the literal text of that number returns %s", arg, u, got, lit), c
+				}
+			}
+		}
+	}
+	// one connection (sql.Conn), one prepared statement, executed again while the previous result set is still open
+	if cn, err := w.db.Conn(context.Background()); err == nil {
+		defer cn.Close()
+		if ps, err := cn.PrepareContext(context.Background(), `a = $1 | b = $2 ; a`); err == nil {
+			defer ps.Close()
+			want1, want2 := c12One(w.db, `a = $1 | b = $2 ; a`, "x", "y"), c12One(w.db, `a = $1 | b = $2 ; a`, "zz", "2")
+			r1, e1 := ps.Query("x", "y")
+			r2, e2 := ps.Query("zz", "2")
+			g1, g2 := "error", "error"
+			if e2 == nil {
+				g2 = c12Render(r2)
+			}
+			if e1 == nil {
+				g1 = c12Render(r1)
+			}
+			cov.Add("evaluations", 1)
+			if g1 != want1 || g2 != want2 {
+				c := c12Multi{Kind: "lexical", Rows: rows, Opt: opt, Texts: []string{`a = $1 | b = $2 ; a`}}
+				return fmt.Sprintf("one statement on one connection executed twice with both result sets open: first returned %s (alone %s), second returned %s (alone %s)", g1, want1, g2, want2), c
+			}
+		}
+	}
 	return "", c12Multi{}
 }
 
@@ -434,7 +478,7 @@ func c12Worker(ctx *rt.Ctx, job *rt.Job) []*rt.Violation {
 					}
 				}
 			}
-			if di < 7 {
+			if di < 8 {
 				if m, c := c12Lexical(w, rows, opt, ctx.Cov); m != "" {
 					vs = append(vs, rt.NewViolation("C12", "lexical", c.sig(), c, "%s", m))
 				}
